@@ -1,4 +1,104 @@
-/- driver stub (Discovery): replaced by the owner of this model group -/
+/- driver for C19 (exe drv_disc).  One line = one tree + its queries, one answer token per query:
+
+     T <n> (<hex abs path> <a|f|d> <cfg: -|n|NAT> <rc: -|NAT>)*n  Q <m> (<op> <hex cwd> <-|r<hex raw path>>)*m
+
+   op ∈ gp1 (get_project search=True) | gp0 (search=False) | gj (get_job) | init (init_project)
+        | open (Project(path)).   `-` as raw path = argument omitted (cwd is used).
+   answer: ok:<hex path>{:+d<hex path> | :+c<hex path>}*   |  ok:<id>:<hex path>{…}*  |
+           LookupError | IncompatibleSchemaVersion | AssertionError -/
 import Signac.Wire
-open Signac
-def main : IO Unit := driverLoop (fun _ => "bad-op")
+import Signac.Discovery
+open Signac Signac.Disc
+
+def pathOfString (s : String) : Path := ((s.splitOn "/").filter (fun c => !c.isEmpty)).reverse
+
+def pathToString (p : Path) : String := "/" ++ "/".intercalate p.reverse
+
+def parsePath (hx : String) : Option Path := (unhex hx).map pathOfString
+
+def parseKind (s : String) : Option Kind :=
+  if s = "a" then some .absent else if s = "f" then some .file else if s = "d" then some .dir else none
+
+def parseCfg (s : String) : Option (Option (Option Nat)) :=
+  if s = "-" then some none else if s = "n" then some (some none) else s.toNat?.map (fun v => some (some v))
+
+def parseRc (s : String) : Option (Option Nat) :=
+  if s = "-" then some none else s.toNat?.map some
+
+def parseNodes : Nat → List String → Option (List Node × List String)
+  | 0, ts => some ([], ts)
+  | n + 1, p :: k :: c :: r :: ts => do
+    let p ← parsePath p
+    let k ← parseKind k
+    let c ← parseCfg c
+    let r ← parseRc r
+    let (ns, rest) ← parseNodes n ts
+    pure (⟨p, k, c, r⟩ :: ns, rest)
+  | _, _ => none
+
+def errName : Err → String
+  | .lookup => "LookupError"
+  | .incompatible => "IncompatibleSchemaVersion"
+  | .assertion => "AssertionError"
+
+def stepStr : Step → String
+  | .mkdir p => ":+d" ++ toHex (pathToString p)
+  | .writeConfig p => ":+c" ++ toHex (pathToString p)
+
+def stepsStr (ss : List Step) : String := String.join (ss.map stepStr)
+
+def showProj (r : Except Err Path × List Step) : String :=
+  match r with
+  | (.ok q, ss) => "ok:" ++ toHex (pathToString q) ++ stepsStr ss
+  | (.error e, _) => errName e
+
+def showJob (r : Except Err (String × Path) × List Step) : String :=
+  match r with
+  | (.ok (j, q), ss) => "ok:" ++ j ++ ":" ++ toHex (pathToString q) ++ stepsStr ss
+  | (.error e, _) => errName e
+
+def answer (t : Tree) (op : String) (cwd : Path) (raw : Option String) : Option String :=
+  let p := match raw with
+    | none => cwd
+    | some r => absPath cwd r
+  if op = "gp1" then some (showProj (getProject t p true))
+  else if op = "gp0" then some (showProj (getProject t p false))
+  else if op = "gj" then some (showJob (getJob t p))
+  else if op = "init" then some (showProj (initProject t p))
+  else if op = "open" then some (showProj (openProject t p))
+  else none
+
+def parseRaw (s : String) : Option (Option String) :=
+  if s = "-" then some none
+  else match s.toList with
+    | 'r' :: hx => (unhex (String.ofList hx)).map some
+    | _ => none
+
+def answers (t : Tree) : Nat → List String → Option (List String)
+  | 0, [] => some []
+  | n + 1, op :: cwd :: raw :: ts => do
+    let cwd ← parsePath cwd
+    let raw ← parseRaw raw
+    let a ← answer t op cwd raw
+    let rest ← answers t n ts
+    pure (a :: rest)
+  | _, _ => none
+
+def stepDisc (line : String) : String :=
+  match tokens line with
+  | "T" :: n :: ts =>
+    match n.toNat? with
+    | none => "bad-value"
+    | some n =>
+      match parseNodes n ts with
+      | some (ns, "Q" :: m :: qs) =>
+        match m.toNat? with
+        | none => "bad-value"
+        | some m =>
+          match answers (Tree.ofNodes ns) m qs with
+          | some as => " ".intercalate as
+          | none => "bad-value"
+      | _ => "bad-value"
+  | _ => "bad-op"
+
+def main : IO Unit := driverLoop stepDisc
